@@ -1,6 +1,6 @@
 import OntVerif.Model.ConnCtl
 /-!
-# HISTORICAL step function: `ConnectController` before commit 280bc886 ("reserve-slot")
+# HISTORICAL step functions: `ConnectController` before commit 280bc886 ("reserve-slot") and before 471ac830
 
 Not the code in the tree.  Kept only so that the refutation of C36 for the controller as it was shipped
 (`beforeHandshakeCheck` … handshake … `savePeer` without reservation: check-then-act) stays a checked theorem about
@@ -86,5 +86,23 @@ def NoOverlap (s : State) : Prop := ∀ d, inFlight s d ≤ 1
 def NoOverlapRunHist : State → List Nat → Prop
   | _, [] => True
   | s, i :: r => NoOverlap (stepHist s i) ∧ NoOverlapRunHist (stepHist s i) r
+
+/-! ## The controller between 280bc886 and 471ac830: every `Close()` of a `Conn` ran `removePeer` -/
+
+/-- the current step, except that a repeated `Close()` of a stale handle removes `conn.addr` from the address set
+again (only the `peers` entry was guarded by `connectId`) -/
+def stepStaleHist (s : State) (i : Nat) : State :=
+  if staleStep s i then
+    match s.threads[i]? with
+    | some t => (removePeer s t).1
+    | none => s
+  else step s i
+
+def runStaleHist (s : State) (sched : List Nat) : State := sched.foldl stepStaleHist s
+
+/-- the schedule never closes a `Conn` twice -/
+def StaleFreeRun : State → List Nat → Prop
+  | _, [] => True
+  | s, i :: r => staleStep s i = false ∧ StaleFreeRun (step s i) r
 
 end OntVerif.Model.ConnCtl
